@@ -23,6 +23,9 @@ SEQ = {
 }
 
 
+EXTRA = {"C19", "C12", "C16", "C17", "C20", "C11"}
+
+
 def seq_property(prop, tier):
     t0 = time.time()
     preds, names = SEQ[prop]
@@ -58,6 +61,10 @@ def main():
         sys.exit(replay(a.prop, a.replay))
     if a.prop in SEQ:
         sys.exit(seq_property(a.prop, a.tier))
+    if a.prop in EXTRA:
+        import importlib
+        mod = importlib.import_module(f"harness.props.{a.prop}")
+        sys.exit(mod.run(a.tier))
     print(f"MACHINERY-FAILURE: no check registered for {a.prop}")
     sys.exit(2)
 
